@@ -91,6 +91,24 @@ def _rp3(rng):
     return tuple(round(rng.uniform(-1, 1), 2) for _ in range(3))
 
 
+def _rp2b(rng):
+    return (rng.choice([rng.uniform(0.2, 1.3), round(rng.uniform(0.2, 1.3), 1)]),
+            rng.choice([rng.uniform(-0.7, 0.4), round(rng.uniform(-0.7, 0.4), 1)]))
+
+
+def _rp4(rng):
+    return tuple(round(rng.uniform(-1, 1), 2) for _ in range(4))
+
+
+def f4(p):
+    return math.exp(-sum(x * x for x in p)) + 0.1 * p[0]
+
+
+def _nd_curvature():
+    from adaptive.learner.learnerND import curvature_loss_function as nd_curv
+    return nd_curv()
+
+
 KINDS = {
     "l1d": Kind("l1d", lambda: adaptive.Learner1D(f1, bounds=(-1.0, 1.0)), f1, _rp1),
     "l1d_curv": Kind("l1d_curv", lambda: adaptive.Learner1D(f1, bounds=(-1.0, 1.0), loss_per_interval=curvature_loss_function()), f1, _rp1),
@@ -99,7 +117,11 @@ KINDS = {
     "l1d_vec": Kind("l1d_vec", lambda: adaptive.Learner1D(f1_vec, bounds=(-1.0, 1.0)), f1_vec, _rp1),
     "lnd2": Kind("lnd2", lambda: adaptive.LearnerND(f2, bounds=[(-1.0, 1.0), (-1.0, 1.0)]), f2, _rp2),
     "lnd3": Kind("lnd3", lambda: adaptive.LearnerND(f3, bounds=[(-1.0, 1.0)] * 3), f3, _rp3),
-    "l2d": Kind("l2d", lambda: adaptive.Learner2D(f2, bounds=[(-1.0, 1.0), (-1.0, 1.0)]), f2, _rp2),
+    # (bounds that are not symmetric about the origin: mid points and un-scaling are not exact there)
+    "l2d": Kind("l2d", lambda: adaptive.Learner2D(f2, bounds=[(0.2, 1.3), (-0.7, 0.4)]), f2, _rp2b),
+    "lnd4": Kind("lnd4", lambda: adaptive.LearnerND(f4, bounds=[(-1.0, 1.0)] * 4), f4, _rp4),
+    "lnd2_curv": Kind("lnd2_curv", lambda: adaptive.LearnerND(f2, bounds=[(-1.0, 1.0), (-1.0, 1.0)],
+                                                              loss_per_simplex=_nd_curvature()), f2, _rp2),
     "avg": Kind("avg", lambda: adaptive.AverageLearner(fseed, atol=0.01, rtol=0.05), fseed, lambda rng: rng.randrange(0, 40)),
     "avg1d": Kind("avg1d", lambda: adaptive.AverageLearner1D(fseedx, bounds=(-1.0, 1.0), min_samples=3, max_samples=12),
                   fseedx, lambda rng: (rng.randrange(0, 8), round(rng.uniform(-1, 1), 1))),
